@@ -371,3 +371,35 @@ func VerifDumpWal(path string) (recs []VerifWalRec, tail int, err error) {
 	}
 	return recs, len(b), nil
 }
+
+// VerifLookupAll runs the engine's own point lookup (BTree.findCell) from the
+// table's root for every key the forward scan returns, and the backward scan;
+// it reports keys the lookup misses and whether the two scans are reverses.
+func VerifLookupAll(rs *RelationService, table string) (missing []uint32, fwd []uint32, bwd []uint32, err error) {
+	off, err := rs.getRelationFileOffset(table)
+	if err != nil {
+		return nil, nil, nil, err
+	}
+	pg, err := rs.fs.fetch(uint64(off))
+	if err != nil {
+		return nil, nil, nil, err
+	}
+	bt := &BTree{store: rs.fs}
+	bt.setRoot(pg)
+	if err := bt.scanRight(func(c *leafCell) (ScanAction, error) { fwd = append(fwd, c.key); return KeepScanning, nil }); err != nil {
+		return nil, nil, nil, err
+	}
+	if err := bt.scanLeft(func(c *leafCell) (ScanAction, error) { bwd = append(bwd, c.key); return KeepScanning, nil }); err != nil {
+		return nil, nil, nil, err
+	}
+	for _, k := range fwd {
+		c, err := bt.findCell(k)
+		if err != nil {
+			return nil, nil, nil, err
+		}
+		if c == nil || c.key != k {
+			missing = append(missing, k)
+		}
+	}
+	return missing, fwd, bwd, nil
+}
